@@ -49,6 +49,14 @@ class Evaluator:
         k = _canon_leaf(t)
         if k in s.overrides:
             return s.overrides[k]
+        # a derived field of self with a single definition (facts.self_field_exprs) is evaluated through that definition
+        fields = getattr(s, 'fields', None)
+        if fields and t[0] == 'attr' and t[1] == ('self',) and t[2] in fields and getattr(s, '_fdepth', 0) < 4:
+            s._fdepth = getattr(s, '_fdepth', 0) + 1
+            try:
+                return s.ev(fields[t[2]])
+            finally:
+                s._fdepth -= 1
         if k not in s.leaves:
             if s.mode == 'int':
                 v = s.rnd.randint(1, 60)
@@ -67,7 +75,19 @@ class Evaluator:
             if t[1] is None or isinstance(t[1], (bool, str, bytes)):
                 return t[1]
             raise NotEvaluable(t)
-        if k in ('p', 'attr', 'lp', 'loopvar', 'elem', 'self'):
+        if k == 'attr':
+            kk = _canon_leaf(t)
+            if kk in s.overrides:
+                return s.overrides[kk]
+            # attribute of a value the assignment fixes to a Python object (a slice given for an `index` parameter ...)
+            bk = _canon_leaf(t[1])
+            if bk in s.overrides and not isinstance(s.overrides[bk], (int, float, str, bytes, bool, type(None))):
+                try:
+                    return getattr(s.overrides[bk], t[2])
+                except AttributeError as exc:
+                    raise NotEvaluable(exc)
+            return s.leaf(t)
+        if k in ('p', 'lp', 'loopvar', 'elem', 'self'):
             return s.leaf(t)
         if k == 'bin':
             a, b = s.ev(t[2]), s.ev(t[3])
@@ -101,6 +121,50 @@ class Evaluator:
                     return FUNCS[name](s.ev(t[2][0]))
                 except (TypeError, ValueError) as exc:
                     raise NotEvaluable(exc)
+            if t[1][0] == 'b' and name in ('any', 'all', 'sum', 'tuple', 'list', 'max', 'min') and len(t[2]) == 1 and t[2][0][0] in ('gen', 'listcomp') and len(t[2][0][2]) == 1:
+                # a comprehension over a sequence the point fixes: evaluated element by element
+                g = t[2][0]
+                var, it, conds = g[2][0]
+                if not var.isidentifier():
+                    raise NotEvaluable('comprehension target %s' % var)
+                seq = s.ev(it)
+                if not isinstance(seq, (tuple, list)):
+                    raise NotEvaluable('comprehension over a non-sequence')
+                vals = []
+                key = ('lp', var)
+                saved = s.overrides.get(key, s)
+                try:
+                    for x in seq:
+                        s.overrides[key] = x
+                        if all(s.ev(c) for c in conds):
+                            vals.append(s.ev(g[1]))
+                finally:
+                    if saved is s:
+                        s.overrides.pop(key, None)
+                    else:
+                        s.overrides[key] = saved
+                try:
+                    return {'any': any, 'all': all, 'sum': sum, 'tuple': tuple, 'list': tuple, 'max': max, 'min': min}[name](vals)
+                except (TypeError, ValueError) as exc:
+                    raise NotEvaluable(exc)
+            if name == 'isinstance' and len(t[2]) == 2 and t[1] == ('b', 'isinstance'):
+                TYPES = {'int': int, 'float': float, 'slice': slice, 'str': str, 'bytes': bytes, 'bool': bool}
+                tt = t[2][1]
+                tts = tt[1] if tt[0] in ('tuple', 'list') else (tt,)
+                if all(x[0] == 'b' and x[1] in TYPES for x in tts):
+                    return isinstance(s.ev(t[2][0]), tuple(TYPES[x[1]] for x in tts))
+                return s.leaf(t)
+            if name == 'slice' and t[1] == ('b', 'slice') and 1 <= len(t[2]) <= 3:
+                return slice(*[s.ev(a) for a in t[2]])
+            if name == 'len' and t[1] == ('b', 'len') and len(t[2]) == 1 and _canon_leaf(t) not in s.overrides:
+                a0 = t[2][0]
+                try:
+                    inner = s.ev(a0) if (a0[0] in ('tuple', 'list', 'c', 'sub', 'bin') or _canon_leaf(a0) in s.overrides) else None
+                except NotEvaluable:
+                    inner = None
+                if isinstance(inner, (tuple, list, str, bytes)):
+                    return len(inner)
+                return s.leaf(t)
             if name in ('min', 'max') and len(t[2]) >= 2:
                 vals = [s.ev(a) for a in t[2]]
                 try:
@@ -121,6 +185,20 @@ class Evaluator:
             return s.leaf(t)
         if k == 'sub':
             base = t[1]
+            # indexing / slicing of something the point fixes to a Python sequence (bytes of a buffer, a tuple)
+            bk = _canon_leaf(base)
+            if bk in s.overrides and isinstance(s.overrides[bk], (bytes, tuple, list, str)):
+                seq = s.overrides[bk]
+                idx = t[2]
+                try:
+                    if idx[0] == 'slice':
+                        lo = s.ev(idx[1]) if idx[1] is not None else None
+                        hi = s.ev(idx[2]) if idx[2] is not None else None
+                        st = s.ev(idx[3]) if len(idx) > 3 and idx[3] is not None else None
+                        return seq[lo:hi:st]
+                    return seq[s.ev(idx)]
+                except (IndexError, TypeError, ValueError) as exc:
+                    raise NotEvaluable(exc)
             # indexing / slicing of a value that evaluates to a tuple (divmod, gmtime, literal tuples, slices of those)
             if base[0] in ('tuple', 'list') or (base[0] == 'call' and term_name(base[1]).split('.')[-1] in ('divmod', 'gmtime')) or base[0] == 'sub':
                 try:
@@ -139,14 +217,19 @@ class Evaluator:
                     except (IndexError, TypeError) as exc:
                         raise NotEvaluable(exc)
             return s.leaf(t)
+        if k in ('tuple', 'list') and len(t) == 2:
+            return tuple(s.ev(x) for x in t[1])
         if k == 'ite':
             c = s.ev(t[1])
             return s.ev(t[2]) if c else s.ev(t[3])
         if k == 'cmp':
             a, b = s.ev(t[2]), s.ev(t[3])
             op = t[1]
+            same = lambda: a is b or (type(a) == type(b) and a == b) or (isinstance(a, (int, float)) and isinstance(b, (int, float)) and not isinstance(a, bool) and not isinstance(b, bool) and a == b)
             try:
-                return {'<': a < b, '<=': a <= b, '>': a > b, '>=': a >= b, '==': a == b, '!=': a != b, 'is': a is b or a == b, 'is not': not (a is b or a == b)}[op]
+                fn = {'<': lambda: a < b, '<=': lambda: a <= b, '>': lambda: a > b, '>=': lambda: a >= b, '==': lambda: a == b, '!=': lambda: a != b,
+                      'is': same, 'is not': lambda: not same(), 'in': lambda: a in b, 'not in': lambda: a not in b}[op]
+                return fn()
             except (TypeError, KeyError) as exc:
                 raise NotEvaluable(exc)
         if k == 'not':
